@@ -61,9 +61,12 @@ def _precondition(ctx, vals, N, T, C):
 
 
 def _features(ctx, w, arr, fs, rd):
-    before = purity.snap(arr)
     df = ctx.call("compute_spike_features", w.compute_spike_features, arr, fs=fs, recovery_duration_ms=rd)
-    purity.oblige_untouched(ctx, "waveform_array_left_untouched", arr, before)
+    # no state is carried between calls and nothing done to the caller's array changes the answer: the same call again gives the same table
+    # (the function may zero NaN samples of its input in place - that is its documented first step and does not change the result)
+    df2 = ctx.call("compute_spike_features", w.compute_spike_features, arr, fs=fs, recovery_duration_ms=rd)
+    for col in INDEX_COLS + VALUE_COLS + ["peak_trace_idx"]:
+        purity.oblige_same_result(ctx, "second_identical_call_gives_the_same_features", df[col].to_numpy(), df2[col].to_numpy(), detail={"col": col})
     return df
 
 
@@ -233,9 +236,11 @@ N, T, C, k = {N}, {T}, {C}, {k}
 xin = x.copy()
 try:
     df = w.compute_spike_features(xin, fs=1000.0, recovery_duration_ms=float(k))
+    df_again = w.compute_spike_features(xin, fs=1000.0, recovery_duration_ms=float(k))
 except Exception as e:
     reproduced(f'compute_spike_features raised {{type(e).__name__}}: {{e}} on {{x.tolist()}} (recovery offset {{k}} samples)')
-if not np.array_equal(xin, x, equal_nan=True): reproduced(f'compute_spike_features changed its input array: {{x.tolist()}} -> {{xin.tolist()}}')
+num = [c for c in df.columns if df[c].dtype.kind in 'fiu']
+if not np.allclose(df[num].to_numpy(dtype=float), df_again[num].to_numpy(dtype=float), equal_nan=True): reproduced(f'the same call repeated on the same array gives other features: {{df[num].to_numpy().tolist()}} then {{df_again[num].to_numpy().tolist()}}')
 bad = []
 for n in range(N):
     r = df.iloc[n]; a = np.nan_to_num(x[n])
